@@ -1264,3 +1264,66 @@ func ruleNumberWriteSiblings(c *Ctx, r *Report) {
 	}
 	r.analysed(rule, "Integer.WriteTerm Float.WriteTerm")
 }
+
+// ---------------------------------------------------------------------------
+// R-QUOTE-AGREES (C06; added with fix F31): what the writer puts verbatim between quotes is what the reader
+// accepts between quotes. In the quoting function every rune written as itself lies under the fact that
+// the LEXER'S OWN predicate for a character of a quoted token (isSingleQuotedCharacter) accepted it, or that
+// it is one of the constant characters of an escape sequence; everything else goes out as an escape. Two
+// independent descriptions of "printable inside quotes" (a regular expression in the writer, a predicate in
+// the lexer) had drifted apart: '€' was written verbatim and rejected on reading.
+
+func ruleQuoteAgrees(c *Ctx, r *Report) {
+	const rule = "R-QUOTE-AGREES"
+	q := c.fn("quote")
+	pred := c.fn("isSingleQuotedCharacter")
+	if q == nil || pred == nil {
+		r.undecided(rule, "anchor", "-", "locate quote and isSingleQuotedCharacter", "not found")
+		return
+	}
+	desc := "a character is written verbatim inside quotes only if the lexer accepts it there"
+	n := 0
+	usesPred := false
+	eachInstr(q, func(in ssa.Instruction) {
+		call, ok := in.(*ssa.Call)
+		if !ok {
+			return
+		}
+		if call.Call.StaticCallee() == pred {
+			usesPred = true
+		}
+		callee := call.Call.StaticCallee()
+		if callee == nil || callee.Name() != "WriteRune" || len(call.Call.Args) < 2 {
+			return
+		}
+		n++
+		key := fmt.Sprintf("%s/verbatim#%d", fname(q), n)
+		rn := call.Call.Args[1]
+		// cut-set: the write must be unreachable once the edges "predicate said yes" and "is a constant
+		// escape character" are removed
+		reach := reachableAvoiding(q, in.Block(), func(from *ssa.BasicBlock, i int, cond ssa.Value) bool {
+			if pc, ok := cond.(*ssa.Call); ok && pc.Call.StaticCallee() == pred && len(pc.Call.Args) == 1 && (pc.Call.Args[0] == rn || c.sameVar(pc.Call.Args[0], rn)) {
+				return i == 0
+			}
+			if bo, ok := cond.(*ssa.BinOp); ok && (bo.Op == token.EQL || bo.Op == token.NEQ) {
+				for _, pair := range [][2]ssa.Value{{bo.X, bo.Y}, {bo.Y, bo.X}} {
+					if (pair[0] == rn || c.sameVar(pair[0], rn)) && isConstVal(pair[1]) {
+						return (bo.Op == token.EQL) == (i == 0)
+					}
+				}
+			}
+			return false
+		})
+		if reach {
+			r.bad(rule, fmt.Sprintf("%s/verbatim", fname(q)), c.at(in), desc, "a rune is written as itself on a path on which the lexer's predicate was not asked (or said no)")
+		} else {
+			r.ok(rule, key, c.at(in), desc, "reached only across isSingleQuotedCharacter(r) == true or r == <escape character>", true)
+		}
+	})
+	if !usesPred {
+		r.bad(rule, fname(q)+"/uses-lexer-predicate", c.Pos(q.Pos()), "the quoting function decides with the lexer's predicate", "isSingleQuotedCharacter is not consulted: writer and reader describe 'printable inside quotes' independently and can disagree ('€' is written verbatim and rejected on reading)")
+	} else {
+		r.ok(rule, fname(q)+"/uses-lexer-predicate", c.Pos(q.Pos()), "the quoting function decides with the lexer's predicate", "isSingleQuotedCharacter is consulted", false)
+	}
+	r.analysed(rule, fname(q))
+}
